@@ -35,6 +35,7 @@ func runC20(c *Ctx, r *Report) {
 	c20Erase(c, r)
 	c20Trim(c, r)
 	c20Buffered(c, r)
+	c20EscapeTerminator(c, r, "C20-c/escape-terminator")
 }
 
 func blocksOf(body *ast.BlockStmt) [][]ast.Stmt {
@@ -473,6 +474,8 @@ func runC15(c *Ctx, r *Report) {
 	borrow(c, r, func(c *Ctx, r *Report) { c01BatcherLoops(c, r, "C01-b") }, "C01-b", "C15-c", func(o Ob) bool { return strings.Contains(o.Key, "WithTimeFlush") }, false)
 	r.Floor("C15-c/fresh-batch", 3, "make / append / re-make in the time-flush loop")
 	r.Floor("C15-c/append-once", 2, "iteration paths of the time-flush loop")
+	c15EventForwarded(c, r, "C15-a/event-forwarded")
+	c15ArgumentOrder(c, r, "C15-d/argument-order")
 }
 
 func c15Signals(c *Ctx, r *Report) {
